@@ -1,6 +1,40 @@
-From Coq Require Import List String.
-From GinV Require Import Model.Values Model.Gin.
+(* C02 — literal values parse to exactly what Python evaluates them to.
+   Statements only; proofs in Proofs/ParserSmall.v, ParserLemmas.v, ParserProofs.v. *)
+From Coq Require Import List String ZArith Bool Arith.
+From GinV Require Import Lib.Out Lib.PyStr Model.Parser Model.ParserSpec
+                         Proofs.ParserSmall Proofs.ParserLemmas Proofs.ParserProofs.
 Import ListNotations.
-Theorem C02_placeholder : prefixes [1;2] = [[]; [1]; [1;2]].
-Proof. reflexivity. Qed.
-Print Assumptions C02_placeholder.
+Open Scope string_scope.
+Open Scope list_scope.
+
+(* Completeness, for EVERY tree of the literal grammar (any nesting depth, trailing commas, one-tuples,
+   parenthesised values, leading minus, runs of adjacent strings), in EVERY layout (any NL / COMMENT
+   tokens after any token inside brackets) and whatever follows: parse_value returns exactly Python's
+   value and consumes exactly the literal's own tokens and the trivia behind it. *)
+Theorem C02_complete : forall o l wb lay n inside v toks n' tr rest fuel,
+  lay_ok lay -> lit_wf o l -> py_eval o l = Some v -> render l lay n inside = (toks, n') ->
+  Forall tok_ok toks -> Forall trivia_tok tr ->
+  rest <> [] -> (forall t r', rest = t :: r' -> follow_ok t) ->
+  List.length toks <= fuel ->
+  parse_value fuel o wb (toks ++ tr ++ rest) = POk (v, rest).
+Proof. exact C02_complete_strong. Qed.
+
+(* with the fuel the parser actually uses *)
+Theorem C02_complete_value_fuel : forall o l wb lay n inside v toks n' tr rest,
+  lay_ok lay -> lit_wf o l -> py_eval o l = Some v -> render l lay n inside = (toks, n') ->
+  Forall tok_ok toks -> Forall trivia_tok tr ->
+  rest <> [] -> (forall t r', rest = t :: r' -> follow_ok t) ->
+  parse_value (value_fuel (toks ++ tr ++ rest)) o wb (toks ++ tr ++ rest) = POk (v, rest).
+Proof. exact C02_value_fuel. Qed.
+
+(* "(x)" is x; "(x,)" is the one-tuple *)
+Theorem C02_paren_is_value : forall o x, py_eval o (LParen x) = py_eval o x.
+Proof. exact one_tuple_rule. Qed.
+Theorem C02_one_tuple : forall o x trailing,
+  py_eval o (LTuple [x] trailing) = match py_eval o x with Some v => Some (OT "T" [v]) | None => None end.
+Proof. exact one_tuple_rule_comma. Qed.
+
+Print Assumptions C02_complete.
+Print Assumptions C02_complete_value_fuel.
+Print Assumptions C02_paren_is_value.
+Print Assumptions C02_one_tuple.
